@@ -1,6 +1,6 @@
 (* Uniform executable entry point of the model for the correspondence check:
    run_case tag args = the observable outputs the implementation must produce for the same case. *)
-From DDSV Require Import base.Machine model.View model.Layout model.DecoderSM model.EncoderSM model.Split model.DecodeScript model.Formats gen.GenFormats spec.SpecLayout model.HeaderTypes gen.GenHeader model.Header model.Numeric model.BCdec model.BC7 model.Float model.Convert model.Uncomp model.Crop model.RectPath model.PixelPath model.BiPlanarPath model.Encode model.BC6 model.BCF32.
+From DDSV Require Import base.Machine model.View model.Layout model.DecoderSM model.EncoderSM model.Split model.DecodeScript model.Formats gen.GenFormats spec.SpecLayout model.HeaderTypes gen.GenHeader model.Header model.Numeric model.BCdec model.BC7 model.Float model.Convert model.Uncomp model.Crop model.RectPath model.PixelPath model.BiPlanarPath model.EncChunks model.Encode model.BC6 model.BCF32.
 
 Local Open Scope Z_scope.
 
@@ -403,6 +403,21 @@ Definition run_c53 (a : list Z) : list Z :=
   | _ => [-99]
   end.
 
+(* ---- C12 / C10 encoder chunking: [kind (0 for_each_chunk, 1 sub-sampled rows); buffer pixels; contiguous; w; h; bw] -> chunk events *)
+Definition run_c54 (a : list Z) : list Z :=
+  match a with
+  | [kind; nbuf; contiguous; w; h; bw] =>
+      let n := Z.to_nat in
+      let rows := repeat (repeat tt (n w)) (n h) in
+      if kind =? 0 then
+        flat_map (fun c => [2; 5; Z.of_nat (length c)])
+          (if contiguous =? 0 then EncChunks.fec_rows unit (n nbuf) rows else EncChunks.fec_contiguous unit (n nbuf) rows)
+      else
+        concat (map (fun yr => flat_map (fun c => [4; 6; Z.of_nat (fst yr); Z.of_nat (length c); Z.of_nat ((length c + n bw - 1) / n bw)])
+                                (EncChunks.chunks unit (n nbuf / n bw * n bw) (snd yr))) (combine (seq 0 (n h)) rows))
+  | _ => [-99]
+  end.
+
 (* ---- C12 uncompressed encode: [fmt; channels; prec; values...] -> bytes *)
 Definition run_c12 (a : list Z) : list Z :=
   match a with
@@ -436,6 +451,7 @@ Definition run_case (tag : Z) (args : list Z) : list Z :=
   | 51 => run_c51 args
   | 52 => run_c52 args
   | 53 => run_c53 args
+  | 54 => run_c54 args
   | 12 => run_c12 args
   | 121 => run_c121 args
   | 40 => run_c40 args
